@@ -84,7 +84,7 @@ reg("C34","fwd","fault_enumeration","enumeration of every byte corruption and tr
 reg("C27","procs","fault_enumeration","strace-injected SIGKILL / errno at every syscall of the atomic write in a child process, target re-read afterwards",
     "a child writes `old`, then between marker syscalls calls the real WriteFileAtomic / MarshalAndSaveProtobuf with `new`; for every syscall index in the bracket (openat, write, close, fchmodat, renameat, and the clean-up path) one run is killed just before it and one gets an errno (zero-byte and RLIMIT_FSIZE short writes too), plus second-order faults in the failure path: the target is exactly old or exactly new, consistent with what the child reported, and only Mutagen temporaries are left.",
     "process crash, not power loss; an injection that the run's own strace log does not show inside the bracket is inconclusive")
-reg("C28","procs","exploration","interval-overlap checking of a cross-process CLOCK_MONOTONIC journal + porcupine lock model, with random SIGKILLs",
+reg("C28","procs","fault_enumeration","interval-overlap checking of a cross-process CLOCK_MONOTONIC journal + porcupine lock model, with random SIGKILLs",
     "8 (quick) / 32 (thorough) child processes race the real daemon.AcquireLock on one data directory, write and re-read a pid cell while holding, release or get SIGKILLed: definite-hold intervals never overlap, a foreign pid is never seen while holding, every refusal overlaps a possible hold of another process, and the history is linearizable against a lock model in which killed-in-flight attempts may or may not have acquired.",
     "bounded by acquisition counts; a porcupine timeout is inconclusive for the cross-check only")
 reg("C35","procs","exploration","process-state observation after the real transport stream Close on fake agents with four termination behaviours",
@@ -99,6 +99,19 @@ reg("C43","procs","exploration","disk re-observation after the real Housekeep on
 reg("C46","procs","exploration","child-process probe of the real ExecutableForPlatform over generated bundle layouts",
     "the monitor copies itself to <scratch>/bin and builds tar.gz bundles with distinct per-platform payloads in the executable's directory, in libexec, in both or in neither: the extracted bytes are the executable-directory bundle's entry when that bundle exists, else libexec's; unknown platforms and missing bundles are errors; the extracted file is executable.",
     "layouts use the FHS bin/libexec convention the code looks for")
+
+reg("C23","mux","exploration","conservation checking of position-derived byte patterns over two real multiplexers + independent wire-protocol monitor, race detector on",
+    "2-64 concurrent bidirectional streams over in-memory carriers with random chunking, windows {1..65535}, 1-5 write buffers, backlogs {1,2,10}, varied GOMAXPROCS: bytes read are exactly the first sum(n) bytes of the (stream, direction, position)-derived pattern, EOF only after the peer's CloseWrite/Close was issued and everything written before was read; an independent decoder checks every wire message for protocol conformance.",
+    "reach is the interleavings that occurred (distinct wire message-kind orders are counted); a clean race-detector run covers those interleavings only")
+reg("C24","mux","exploration","random public-API programs on both multiplexers + liveness check + independent wire-protocol monitor, race detector on",
+    "directed and random programs of public calls only (open with/without cancelled contexts incl. concurrent opens, accept, Read with buffers of size 0..64 KiB, zero-length writes, CloseWrite, Close, all deadline setters, opens beyond the backlog, reads after EOF, writes after remote close): afterwards both multiplexers are alive with nil internal error and the wire monitor flagged nothing.",
+    "a call that never returns is inconclusive here (hangs are C25's claim)")
+reg("C25","mux","exploration","journal of (call, enabling event, return) with a control-relative watchdog",
+    "scenarios: reader stalled forever on one stream while another moves 8 MiB; writers blocked on a zero window released by deadline / local close / multiplexer close; opens against a peer that never accepts (beyond the backlog must be rejected); accept/open with cancelled contexts; deadlines set by another goroutine: every blocked call returns within the bound after its enabling event is recorded.",
+    "'never hangs' restated as bounded progress relative to a heartbeat; an unhealthy heartbeat makes the case inconclusive")
+reg("C26","mux","exploration","reference-model comparison (slice-backed FIFO) over exhaustively enumerated operation sequences",
+    "every sequence of up to 5-6 (quick) / 6-8 (thorough) operations from a 24-operation alphabet (Write, WriteByte, Read, ReadByte, ReadNFrom with short/EOF/error readers, WriteTo with short/failing writers, Reset) for capacities 0..3, plus random 10^4-operation sequences on capacities up to 70000: results, Used/Free/Size and drained contents agree with the model.",
+    "sequence enumeration copies ring.Buffer by its (start-up verified) memory layout to branch cheaply")
 
 NOT_APPLICABLE = {}
 def main():
